@@ -750,6 +750,8 @@ class Handlers(object):
         A, B, C = o["a"], o["b"], o["c"]
         sz = T.sz[d]
         a = T.flat(d, cls)
+        if cls != "zero" and not any(a):
+            a = [1] + [0] * (d - 1)        # only the class 'zero' yields the zero element
         ma = F.unflatten(a)
         key = "%s|%s" % (fn, GROUP.get(cls, "gen"))
         self.tok = [cls]
@@ -792,7 +794,7 @@ class Handlers(object):
         if s in UN or s in CYC_UN:
             op = UN.get(s) or CYC_UN[s]
             self.tok.append("a%d" % alias)
-            if op == "inv" and cls == "zero":
+            if op == "inv" and not any(a):
                 if not ctx.begin(key, desc, nontrivial=False):
                     return
                 self.put(A, d, a)
@@ -1281,7 +1283,7 @@ class Handlers(object):
         o = T.objs(d)
         n = rng.choice([1, 1, 2, 3, 6])      # n == 0: see fatal_inv_sim_n0
         els = [a] + [T.flat(d, rng.choice([c for c in self.GEN if c != "zero"])) for _ in range(5)]
-        els = els[:n]
+        els = [e if any(e) else [1] + [0] * (d - 1) for e in els[:n]]
         self.tok += ["n%s" % (n if n < 2 else "many"), "a%d" % alias]
         desc["n"] = n
         desc["els"] = [[hx(x) for x in e] for e in els[1:]]
